@@ -3,6 +3,7 @@ package props
 import (
 	"fmt"
 	"math/big"
+	"sort"
 	"testing"
 	"time"
 
@@ -246,4 +247,96 @@ func minterStateEq(a, b mintertypes.MinterState, withTime bool) bool {
 		return false
 	}
 	return true
+}
+
+// TestC02Long: linear periods longer than a time.Duration can express (~292.47 years), with start and
+// end anywhere between the years 1700 and 3300.  The reference model of TestC02 keeps instants as
+// int64 unix nanoseconds (1678..2262), so these schedules get their own oracle in whole seconds and
+// exact rational arithmetic: cumulative minted at T == Amount * (T - start) / (end - start), within
+// the 18-digit resolution of the module's decimal type.
+func TestC02Long(t *testing.T) {
+	st := StatsFor("C02")
+	rapid.Check(t, func(t *rapid.T) {
+		w, ctx := Case()
+		const yearS = int64(365 * 24 * 3600)
+		startS := T0.Unix() + rapid.Int64Range(-300*yearS, 100*yearS).Draw(t, "startOff")
+		lenS := rapid.Int64Range(293*yearS, 1000*yearS).Draw(t, "length")
+		if rapid.Bool().Draw(t, "roundYears") {
+			lenS = lenS / yearS * yearS
+		}
+		endS := startS + lenS
+		amt := genAmount(t, "amount", 30, false)
+		start, end := time.Unix(startS, 0).UTC(), time.Unix(endS, 0).UTC()
+		params := mintertypes.Params{MintDenom: Denom, StartTime: start, Minters: []*mintertypes.Minter{
+			{SequenceId: 1, EndTime: &end, Config: mustAny(&mintertypes.LinearMinting{Amount: sdk.NewIntFromBigInt(amt)})},
+			{SequenceId: 2, Config: mustAny(&mintertypes.NoMinting{})}}}
+		if err := params.Validate(); err != nil {
+			t.Fatalf("generator produced a configuration rejected by validation: %v", err)
+		}
+		setupMinter(t, w, ctx, params, 1, start.Add(-2*time.Second))
+		nb := rapid.IntRange(3, 12).Draw(t, "blocks")
+		var times []int64
+		for i := 0; i < nb; i++ {
+			switch rapid.IntRange(0, 5).Draw(t, fmt.Sprintf("b%d_kind", i)) {
+			case 0:
+				times = append(times, endS+rapid.Int64Range(-1, 1).Draw(t, fmt.Sprintf("b%d_atEnd", i)))
+			case 1:
+				times = append(times, startS+rapid.Int64Range(-1, 1).Draw(t, fmt.Sprintf("b%d_atStart", i)))
+			default:
+				times = append(times, startS+rapid.Int64Range(-10, lenS+1000).Draw(t, fmt.Sprintf("b%d_t", i)))
+			}
+		}
+		sort.Slice(times, func(i, j int) bool { return times[i] < times[j] })
+		cum := new(big.Int)
+		tol := new(big.Int).Add(new(big.Int).Quo(amt, pow10[17]), big.NewInt(2))
+		var hist []string
+		inside, atEnd := false, false
+		for _, ts := range times {
+			bctx := ctx.WithBlockTime(time.Unix(ts, 0).UTC()).WithEventManager(sdk.NewEventManager())
+			before := w.App.BankKeeper.GetSupply(bctx, Denom).Amount
+			var pan interface{}
+			func() {
+				defer func() { pan = notRapid(recover()) }()
+				cfeminter.BeginBlocker(bctx, w.App.CfeminterKeeper)
+			}()
+			if pan != nil {
+				t.Fatalf("minter BeginBlocker panicked at %s: %v\nhistory: %v", time.Unix(ts, 0).UTC(), pan, hist)
+			}
+			d := w.App.BankKeeper.GetSupply(bctx, Denom).Amount.Sub(before).BigInt()
+			if d.Sign() < 0 {
+				t.Fatalf("block at %s minted a negative amount %s", time.Unix(ts, 0).UTC(), d)
+			}
+			cum.Add(cum, d)
+			passed := ts - startS
+			if passed < 0 {
+				passed = 0
+			}
+			if passed > lenS {
+				passed = lenS
+			}
+			want := new(big.Int).Quo(new(big.Int).Mul(amt, big.NewInt(passed)), big.NewInt(lenS))
+			hist = append(hist, fmt.Sprintf("t=%s minted=%s cumulative=%s expected=%s", time.Unix(ts, 0).UTC().Format(time.RFC3339), d, cum, want))
+			if diff := new(big.Int).Abs(new(big.Int).Sub(cum, want)); diff.Cmp(tol) > 0 {
+				t.Fatalf("linear period %s .. %s (%d years) of %s: cumulative minted at %s is %s, the schedule says %s (tolerance %s)\nhistory: %v",
+					start.Format(time.RFC3339), end.Format(time.RFC3339), lenS/yearS, amt, time.Unix(ts, 0).UTC().Format(time.RFC3339), cum, want, tol, hist)
+			}
+			if ts > startS && ts < endS {
+				inside = true
+			}
+			if ts >= endS {
+				atEnd = true
+				if cum.Cmp(amt) != 0 {
+					t.Fatalf("finished linear period minted %s, configured amount %s\nhistory: %v", cum, amt, hist)
+				}
+			}
+		}
+		var cl []string
+		if inside {
+			cl = append(cl, "block_inside_a_period_longer_than_292_years")
+		}
+		if atEnd {
+			cl = append(cl, "long_period_finished")
+		}
+		st.Case(inside && atEnd, map[string]interface{}{"start": startS, "length_s": lenS, "amount": amt.String(), "history": hist}, cl...)
+	})
 }
